@@ -7,6 +7,7 @@ import (
 	"context"
 	"errors"
 	"fmt"
+	"hash/fnv"
 	"io"
 	"net/http"
 	"net/http/httptest"
@@ -149,6 +150,16 @@ func TestVerifDriver(t *testing.T) {
 		res := "bad-op"
 		if len(w) >= 2 && w[0] == "lb" {
 			res = v.op(w[1:])
+		} else if len(w) == 4 && w[0] == "hash" && w[1] == "jump" {
+			k, e1 := strconv.ParseUint(w[2], 10, 64)
+			n, e2 := strconv.ParseInt(w[3], 10, 32)
+			if e1 == nil && e2 == nil && n >= 1 {
+				res = fmt.Sprintf("%d", jumpHash(k, int32(n)))
+			}
+		} else if len(w) == 3 && w[0] == "hash" && w[1] == "fnv" {
+			h := fnv.New32a()
+			_, _ = h.Write([]byte(unesc(w[2])))
+			res = fmt.Sprintf("%d", h.Sum32())
 		}
 		fmt.Fprintln(out, res)
 	}
